@@ -130,6 +130,8 @@ def main(tier):
         rec = c02.observe_record(i, prog, o, 0x2000)
         if rec is None:
             continue
+        if not G.assign_file_scopes(files, o.get("file_scopes")):
+            continue
         rec["files"] = {fn: G.tla_ready(p) for fn, p in files.items()}
         rec["files"]["_"] = []
         frecs.append(V.clip_tree(rec))
